@@ -79,7 +79,12 @@ def c18_call(k0: int, k1: int, k2: int, nparams: int, nargs: int, s0: int, s1: i
         a, _ = make_arg(s, v, x)
         args.append(a)
     want = nargs == nparams and all(fits(k, s, v, x) for k, s in zip(kinds, sels))
-    what = f"g({', '.join(KNAME[k] for k in kinds)}) called with ({', '.join(make_arg(s, 0, 0.5)[1] for s in sels)}) v={v} x={x!r}"
+    class _What:
+        def __str__(self):
+            return f"g({', '.join(KNAME[k] for k in kinds)}) called with ({', '.join(make_arg(s, 0, 0.5)[1] for s in sels)}) v={v} x={x!r}"
+
+        __format__ = lambda self, spec: str(self)
+    what = _What()
     outcomes = []
     for style in ("positional", "keyword"):
         try:
